@@ -75,7 +75,22 @@ def run_cases(binary, wd, cases, tag="sched"):
     out, logtxt = run_harness(binary, {"cases": inp}, wd, tag=tag, test=TEST, timeout=300)
     if out is None:
         raise RuntimeError("scheduling harness run failed:\n" + logtxt)
+    global LAST_DEFAULTS
+    LAST_DEFAULTS = (out.get("defaults_before"), out.get("defaults_after"))
     return out["cases"]
+
+
+LAST_DEFAULTS = (None, None)
+
+
+def flat(d, pre=""):
+    out = {}
+    if isinstance(d, dict):
+        for k, v in d.items():
+            out.update(flat(v, pre + "." + k if pre else k))
+    else:
+        out[pre] = d
+    return out
 
 
 def expect_shed_hint(c):
@@ -141,8 +156,21 @@ def run_sched(ctx, known_sigs):
                                    % (",".join(d["names"]), c["id"], P.describe(to_rebalance_case(c)), o["closed"], o.get("elapsed_ms", 0), d["model_tick"]),
                            "found_input": False,
                            "replay_obj": {"broken": "corr:C19:sched:" + "+".join(d["names"]), "kind": "sched", "disagreement": d, "case": c, "observed": o}})
+    # "only when rebalancing is enabled": a node started with no rebalancing option at all has it disabled - the configuration
+    # `piko server` starts from (Default(), flags registered, empty command line) is the documented default
+    b, a = LAST_DEFAULTS
+    if b is not None and a is not None:
+        fb, fa = flat(b), flat(a)
+        diff = sorted(k for k in set(fb) | set(fa) if fb.get(k) != fa.get(k))
+        reb = [k for k in diff if "rebalance" in k.lower()]
+        if reb:
+            k = reb[0]
+            violations.append({"what": "C19 defaults: registering the command-line flags changes %s from %r to %r: a server started without any rebalancing option %s"
+                                       % (k, fb.get(k), fa.get(k), "runs the rebalance loop" if "threshold" in k.lower() else "does not rebalance as documented"),
+                               "found_input": True,
+                               "replay_obj": {"property": "C19", "kind": "sched-defaults", "signature": "defaults", "changed": {x: [fb.get(x), fa.get(x)] for x in diff}}})
     cov = {"harness": "harness/rebalance_sched (real server.Server.startUpstreamServer + upstreamRebalance, loopback listener, websocket+yamux upstream connections)",
-           "cases": len(cases), "window_ms": WINDOW_MS, "disagreements": len(dis), "monitor_failures": len(fails),
+           "cases": len(cases), "window_ms": WINDOW_MS, "flag_defaults_differ_from_Default": (sorted(k for k in set(flat(b)) | set(flat(a)) if flat(b).get(k) != flat(a).get(k)) if b and a else None), "disagreements": len(dis), "monitor_failures": len(fails),
            "observed": [{"id": o["id"], "closed": o.get("closed"), "elapsed_ms": o.get("elapsed_ms")} for o in outs]}
     return {"violations": violations, "known": known, "coverage": cov}
 
